@@ -66,9 +66,9 @@ func newHeap(comp string, cap int, cmp generic.CompareFunc[int]) heap.IndexedHea
 func atoi(s string) int { n, _ := strconv.Atoi(s); return n }
 
 // Exec runs one case on the real heap package and checks every outcome against a map[int]kv oracle.
-func Exec(c hx.Case) hx.Result {
+func Exec(c hx.Case) (res hx.Result) {
 	comp := hx.HeaderGet(c.Header, "comp")
-	res := hx.Result{BadOp: -1}
+	res = hx.Result{BadOp: -1}
 	bad := func(i int, sig string, format string, a ...any) {
 		if res.BadOp < 0 {
 			res.BadOp = i
